@@ -460,20 +460,7 @@ impl<'a> Sim<'a> {
     }
 
     fn light_insert(&mut self, h: usize, spec: &OrderSpec, clock: Option<i64>) {
-        let t = &mut self.trackers[h];
-        let idx = t.recs.len();
-        t.recs.push(crate::e1u_model::Rec {
-            spec: spec.clone(),
-            tag: spec.tag(),
-            status: St::Buffered,
-            id: None,
-            submit_clock: clock,
-            seen_false: false,
-            seen_true: false,
-            waited_gap_ticks: 0,
-        });
-        t.by_tag.insert(spec.tag(), idx);
-        t.buffered.push(idx);
+        self.trackers[h].note_insert(spec, clock);
     }
 
     fn do_delete(&mut self, op: &Op, bt: u64, id: u64) {
@@ -883,6 +870,7 @@ struct GenCfg {
     burst_sizes: &'static [usize],
     drain: bool,
     frac_shares_p: f64,
+    dup_p: f64,
     preset_id_p: f64,
     unknown_symbol_p: f64,
 }
@@ -972,6 +960,7 @@ impl Gen {
             burst_sizes,
             drain: c.chance(0.7),
             frac_shares_p: *c.pick(&[0.0, 0.1]),
+            dup_p: *c.pick(&[0.0, 0.2, 0.6]),
             preset_id_p: *c.pick(&[0.0, 0.0, 0.1]),
             unknown_symbol_p: *c.pick(&[0.0, 0.03]),
         };
@@ -989,8 +978,14 @@ impl Gen {
             self.rng.pick(&ds.symbols).clone()
         };
         let typ = force_typ.unwrap_or_else(|| Typ::ALL[self.rng.weighted(&self.cfg.typ_w)]);
-        let tag = sim.next_tag;
-        sim.next_tag += 1;
+        let tag = if self.rng.chance(self.cfg.dup_p) && sim.next_tag > 1 {
+            // a quantity used before: equal-looking orders (same symbol/type/size) must stay distinct
+            sim.ctx.bump("probe_duplicate_quantity_orders");
+            (sim.next_tag - 1).saturating_sub(self.rng.below(3)).max(1)
+        } else {
+            sim.next_tag += 1;
+            sim.next_tag - 1
+        };
         let shares = if self.rng.chance(self.cfg.frac_shares_p) { tag as f64 + 0.5 } else { tag as f64 };
         let price = if typ.is_market() { None } else { Some(X(price_near(&mut self.rng, ds, &symbol, k + 1))) };
         let preset_id = if self.rng.chance(self.cfg.preset_id_p) { Some(self.rng.below(50)) } else { None };
